@@ -157,7 +157,7 @@ func stop(ci *clusters.ClusterInfo) { ci.Stop() }
 // TestPropExplicitSubsetStrict: with an explicit subset every window of N consecutive picks is balanced to floor/ceil.
 func TestPropExplicitSubsetStrict(t *testing.T) {
 	sub := stats.NewSub("explicit-subset-strict", "rapid: k in 1..12 endpoints, each healthy / unhealthy / disabled, policy with an explicit upstream subset in any order; L = 1..400 sequential picks (MatchAttributes + Pop per pick), then G goroutines x P picks; oracle: every pick is a ready endpoint of the subset; in every window of N consecutive sequential picks each of the r ready endpoints appears floor(N/r) or ceil(N/r) times; the totals over all picks (sequential + concurrent) are balanced to floor/ceil; no ready endpoint => error and no pick; non-trivial = >= 2 ready endpoints in the policy and L >= r; distinct by FNV-64 of (setup, L)")
-	stats.Check(t, stats.N(400, 6000), func(t *rapid.T) {
+	stats.Check(t, stats.N(800, 6000), func(t *rapid.T) {
 		s := genSetup(t, true)
 		ci, ready := build(t, s)
 		defer stop(ci)
